@@ -333,12 +333,12 @@ def judge(ctx, form, pieces, opts, cell, gdim, cplx, rng, tag=None):
             continue
         scaled = opts["do_apply_integral_scaling"]
 
-        def total(exprs, w, B):
+        def total(exprs, w, B, side=None):
             tot = None
             flags = set()
             mx = 0.0
             for e in exprs:
-                r = S(e, w, B)
+                r = S(e, w, B, side=side)
                 if r.rank or r.fi:
                     raise oracle.StructureMismatch("integrand is not a scalar")
                 tot = r.arr if tot is None else tot + r.arr
@@ -355,7 +355,20 @@ def judge(ctx, form, pieces, opts, cell, gdim, cplx, rng, tag=None):
             return Result(tot, 0, (), flags, mx)
 
         def fout(w, B):
-            tot, flags, mx = total(outs, w, B)
+            try:
+                tot, flags, mx = total(outs, w, B)
+            except oracle.Ambiguous:
+                # an unrestricted terminal whose own value differs between the two cells.  That alone changes nothing
+                # when restrictions were not propagated with checking (geometry lowering rewrites a side-independent
+                # facet quantity into a combination of side-dependent ones): read every unrestricted terminal from one
+                # side, once per side; only if the two readings differ is the output's meaning side-dependent
+                ta, fa, ma = total(outs, w, B, side="+")
+                tb, fb, mb = total(outs, w, B, side="-")
+                ca, cb = complex(B.to_complex(ta)), complex(B.to_complex(tb))
+                if abs(ca - cb) > 1e-9 * max(1.0, abs(ca), abs(cb)):
+                    raise
+                ctx.count("output_read_one_sided_both_sides_agree")
+                tot, flags, mx = ta, fa | fb, max(ma, mb)
             return Result(tot, 0, (), flags, mx)
 
         vs = [oracle.compare_once(fin, fout, w) for w in worlds]
